@@ -198,6 +198,27 @@ theorem C08_wallet_failed_keeps_disk (s : State) (op : Op) (h : (step s op).2.is
     · rfl
     · split <;> rfl
   | cmp scs us => rfl
+  | unlockPass p =>
+    simp only [step, stepUnlockPass, stepUnlock]
+    split
+    · split
+      · rfl
+      · split <;> rfl
+    · rfl
+  | chPass priv old new =>
+    simp only [step, stepChPass] at h ⊢
+    cases hc : (chStep (begin s) priv old new).2 with
+    | some e => simp only [hc]; rfl
+    | none => simp [hc, Res.isErr] at h
+  | chBoth po pn vo vn =>
+    simp only [step, stepChBoth, stepChBothWith, Bool.false_eq_true, if_false] at h ⊢
+    cases hc : (chStep (begin s) false po pn).2 with
+    | some e => simp only [hc]; rfl
+    | none =>
+      cases hc2 : (chStep (chStep (begin s) false po pn).1 true vo vn).2 with
+      | some e => simp only [hc, hc2]; rfl
+      | none => simp [hc, hc2, Res.isErr] at h
+  | restart => rfl
 
 /-! ## 2. the coherence invariant holds after every history -/
 
